@@ -170,13 +170,23 @@ def judge_dag(root, acc, tag='dag'):
   # (e) separate builds share nothing built
   with rec.Trace():
     built2 = fdl.build(cfg)
-  cfg_ids = set()
-  for cat, objs in C.identity_objects(cfg, include_internals=False).items():
-    cfg_ids.update(objs)
-  common = (built_identity_ids(built) & built_identity_ids(built2)) - cfg_ids
+  cfg_objs = C.identity_objects(cfg, include_internals=False)
+  # opaque leaves (sets, user objects) are handed through by reference - they are not built
+  # objects; Buildables and list/tuple/dict containers of the configuration are rebuilt
+  opaque_ids = set(cfg_objs.get('opaque', {}))
+  b1, b2 = built_identity_ids(built), built_identity_ids(built2)
+  common = (b1 & b2) - opaque_ids
   if common:
     acc.violation(f'{tag}:two-builds-share-built-objects',
                   f'{len(common)} built object(s) shared between two build calls', witness())
+  cfg_containers = set(cfg_objs.get('container', {})) | set(cfg_objs.get('tuple', {})) | set(
+      cfg_objs.get('buildable', {}))
+  leaked = (b1 | b2) & cfg_containers
+  if leaked:
+    acc.violation(f'{tag}:config-container-passed-through-unbuilt',
+                  f'{len(leaked)} list/tuple/dict/Buildable object(s) of the configuration appear in '
+                  'the built graph by identity', witness())
+  acc.obs('disjointness_checked')
   acc.case((tag, sketch), len(bnodes) >= 3 and shared >= 1)
   return built
 
